@@ -69,7 +69,10 @@ def run_case(ctx, rng, ci):
     import numpy as np
     kind = rng.choice(["det", "det", "prob", "ens"])
     ds = gen.make_dataset(rng, n_inputs=rng.choice([2, 2, 3, 4]), prob=kind == "prob", ens=kind == "ens", members=3,
-                          miss=rng.choice([0.0, 0.1, 0.2]), sparse=rng.choice([0.0, 0.2]), max_t=5, max_l=4, max_s=4)
+                          miss=rng.choice([0.0, 0.1, 0.2]), sparse=rng.choice([0.0, 0.2]), max_t=5, max_l=4, max_s=4,
+                          some_without_obs=rng.random() < 0.35)
+    if any("obs" not in i["has"] for i in ds["inputs"]):
+        ctx.count("families_with_borrowed_observations")
     F = len(ds["inputs"])
     base = os.path.join(ctx.workdir, "c%d" % ci)
     pa, _ = write_variant(ds, os.path.join(base, "a"), rng, True)
